@@ -210,20 +210,27 @@ def _st_tent():
                 opts.append(st.sampled_from(sp))
             return draw(st.one_of(*opts))
 
-        a = num(-den, den, [-den, 0, den, -den // 2, den // 2])
-        b = num(a, den, [0, a, den, den // 2])
-        c = num(b, den, [b, den, 0])
-        if draw(st.integers(0, 3)) == 0:
-            b = min(max(0, a), c)  # keep the old default when it is inside
-        special = [0, den, 2 * den, abs(a), abs(b), abs(c), den // 2, 3 * den // 2]
+        special = [0, den, 2 * den, den // 2, 3 * den // 2, den // 4, 1, den - 1, den + 1]
         lo = num(0, 2 * den - 1, special)
-        pk = num(lo + 1, 2 * den, special)
-        up = num(pk, 2 * den, special + [pk])
+        pk = num(lo + 1, 2 * den, special + [lo + 1])
+        up = num(pk, 2 * den, special + [pk, pk + 1])
         if pk == up and pk < den:
             up = num(pk + 1, 2 * den, special)
         t = (lo, pk, up)
+        lsp = [-den, 0, den, -den // 2, den // 2, lo, pk, up, lo + 1, pk - 1, pk + 1, up - 1]
+        if lo < den and draw(st.integers(0, 4)) != 0:
+            # the new range overlaps the tent's support: lo < axisMax and axisMin < up
+            c = num(lo + 1, den, lsp)
+            a = num(-den, min(c, up - 1), lsp)
+        else:
+            a = num(-den, den, lsp)
+            c = num(a, den, lsp + [a])
+        b = num(a, c, lsp + [a, c, 0])
+        if a <= 0 <= c and draw(st.integers(0, 2)) == 0:
+            b = 0  # the old default is kept
         if draw(st.booleans()):
             t = (-up, -pk, -lo)
+            a, b, c = -c, -b, -a
         return dict(k="tent", den=den, tent=list(t), lim=[a, b, c])
 
     return s()
@@ -432,7 +439,7 @@ def check_model(acc, case):
     return bool(len(locs) >= 3 and offaxis), labels
 
 
-def _st_model_core(max_axes=4, dens=(4, 4, 4, 2, 1, 8, 10, 16384), max_extra=10):
+def _st_model_core(max_axes=4, dens=(4, 4, 4, 2, 1, 8, 10, 16384), max_extra=10, min_extra=0):
     from hypothesis import strategies as st
 
     @st.composite
@@ -457,10 +464,12 @@ def _st_model_core(max_axes=4, dens=(4, 4, 4, 2, 1, 8, 10, 16384), max_extra=10)
                 return tuple(draw(st.sampled_from([-den, den, den, 0])) for _ in range(naxes))
             return tuple(draw(st.one_of(coord, st.just(0))) for _ in range(naxes))
 
-        extra = draw(st.lists(loc().filter(lambda p: any(p)), unique=True, min_size=0, max_size=draw(st.sampled_from([1, 2, 3, 4, 6, max_extra]))))
+        feasible = (2 * den + 1) ** naxes - 1
+        nextra = min(draw(st.sampled_from([n for n in (0, 1, 2, 2, 3, 3, 4, 5, 6, 8, 10) if min_extra <= n <= max_extra])), feasible)
+        extra = draw(st.lists(loc().filter(lambda p: any(p)), unique=True, min_size=min(nextra, max(1, feasible // 3)) if nextra else 0, max_size=nextra))
         pos = draw(st.integers(0, len(extra)))
         locs = [list(p) for p in extra[:pos]] + [[0] * naxes] + [list(p) for p in extra[pos:]]
-        order = draw(st.one_of(st.none(), st.permutations(axes).map(lambda p: list(p)[: max(0, len(p) - 0)]), st.permutations(axes).map(lambda p: list(p)[:1])))
+        order = draw(st.one_of(st.none(), st.permutations(axes).map(list), st.permutations(axes).map(lambda p: list(p)[:1])))
         mask = None
         if len(locs) >= 2 and draw(st.integers(0, 2)) == 0:
             mask = [True if i == pos else draw(st.booleans()) for i in range(len(locs))]
@@ -859,7 +868,7 @@ def _st_store():
 
     @st.composite
     def s(draw):
-        m = draw(_st_model_core(max_axes=3, dens=(4, 4, 4, 2, 1, 8, 16384), max_extra=7))
+        m = draw(_st_model_core(max_axes=3, dens=(4, 4, 4, 2, 1, 8, 16384), max_extra=6, min_extra=1))
         n = len(m["locs"])
         pos = m.pop("origin")
         m.pop("mask")
@@ -869,7 +878,7 @@ def _st_store():
             mask = None
             if g > 0 and n >= 2:
                 mask = [True if i == pos else draw(st.booleans()) for i in range(n)]
-            nitems = draw(st.sampled_from([1, 2, 3, 5, 8, 14, 24]))
+            nitems = draw(st.sampled_from([1, 2, 3, 5, 8, 8, 14, 14, 24]))
             # a column profile per group so that rows share byte/word characteristics
             prof = [draw(st.sampled_from(["same", "small", "small", "medium", "large", "byte-edge", "word-edge"])) for _ in range(n)]
             items = []
@@ -887,7 +896,7 @@ def _st_store():
             groups=groups,
             opt=dict(nvi=draw(st.booleans()), q=draw(st.sampled_from([1, 1, 1, 1, 2, 3, 8, 64]))),
             sub=dict(
-                keep=draw(st.lists(st.booleans(), min_size=1, max_size=7)),
+                keep=draw(st.lists(st.sampled_from([True, True, True, False]), min_size=1, max_size=7)),
                 adv=draw(st.lists(st.booleans(), min_size=1, max_size=5)),
                 optimize=draw(st.booleans()),
                 retain=draw(st.sampled_from([False, False, True])),
@@ -1105,7 +1114,7 @@ def _st_glyph(kind):
 
     @st.composite
     def s(draw):
-        cs = draw(st.lists(contour(), min_size=0, max_size=draw(st.sampled_from([1, 1, 2, 3]))))
+        cs = draw(st.lists(contour(), min_size=draw(st.sampled_from([0, 1, 1, 1, 1, 1, 1, 1, 1, 1, 1, 1])), max_size=draw(st.sampled_from([1, 1, 2, 3]))))
         contours = [c for c, _ in cs]
         deltas = [d for _, ds in cs for d in ds]
         phantom = [[0, 0], [draw(st.integers(0, 1000)), 0], [0, draw(st.integers(0, 1000))], [0, draw(st.integers(-300, 0))]]
